@@ -234,6 +234,10 @@ func (bsp *batchSpanProcessor) ForceFlush(ctx context.Context) error {
 			// The batchSpanProcessor is Shutdown.
 			verifPoint("bsp.ff.stopch", ctx)
 			return nil
+		} else if err := ctx.Err(); err != nil {
+			// The marker was not enqueued because ctx is done: the spans
+			// queued before this call have not been waited for.
+			return err
 		}
 
 		wait := make(chan error, 1)
